@@ -13,7 +13,8 @@ use serde_json::json;
 use std::collections::{BTreeMap, BTreeSet};
 
 // (a name may hold a colon: a reference is `path:name` split at its FIRST colon, `:name` for the same file)
-pub const NAMES: &[&str] = &["a", "b", "c", "dup", "x-1", "ns:item"];
+// (and characters of more than one byte: offsets inside a changed tag line are bytes, not characters)
+pub const NAMES: &[&str] = &["a", "b", "c", "dup", "x-1", "ns:item", "größe"];
 
 #[derive(Clone, Debug, Serialize, Deserialize, Hash, PartialEq, Eq)]
 pub struct Ref {
@@ -153,7 +154,12 @@ pub fn tag_lines(text: &str, b: &TruthBlock) -> (usize, usize, usize, usize) {
 /// Oracle part 1, from the statement: modified iff the diff adds/edits/deletes a line strictly between the
 /// start-tag comment and the end-tag comment; never when every change stays clear of the block and of the
 /// lines adjoining its tag comments; undecided in between.
-pub fn expectation(fd: Option<&FileDiff>, lines: (usize, usize, usize, usize), same_comment: bool) -> Expect {
+///
+/// `own_line_tag`: Some((line, bytes before the comment)) when the start-tag comment sits on that one line and
+/// runs to the line's very end (nothing, not even a `\r`, between the comment and the `\n`). A one-for-one
+/// replacement of that line which keeps the bytes in front of the comment changes the comment only - not a line
+/// between the two tag comments - so it does not stop the block from being clear of the diff.
+pub fn expectation(fd: Option<&FileDiff>, lines: (usize, usize, usize, usize), same_comment: bool, own_line_tag: Option<(usize, usize)>) -> Expect {
     let Some(fd) = fd else { return Expect::MustNot };
     let (s1, s2, e1, e2) = lines;
     let mut must = false;
@@ -174,7 +180,8 @@ pub fn expectation(fd: Option<&FileDiff>, lines: (usize, usize, usize, usize), s
                 if !same_comment && s2 < *n && *n < e1 && !terminator_only {
                     must = true;
                 }
-                if *n + 1 >= s1 && *n <= e2 + 1 {
+                let comment_only = own_line_tag.is_some_and(|(l, p)| l == *n && g.removed.len() == 1 && g.added.len() == 1 && !g.old_eof_marker && text.get(..p).is_some() && g.removed[0].1.get(..p) == text.get(..p));
+                if *n + 1 >= s1 && *n <= e2 + 1 && !comment_only {
                     clear = false;
                 }
             }
@@ -373,7 +380,12 @@ pub fn check(c: &DriftCase, probe: &Probe) -> Verdict {
         let fd = fd_of(&w.paths[i]);
         for t in &b.blocks {
             let lines = tag_lines(&w.new_text[i], t);
-            let e = expectation(fd, lines, t.same_comment);
+            let txt = &w.new_text[i];
+            let own_line_tag = (lines.0 == lines.1 && !t.same_comment && txt[t.start_comment.1..].starts_with('\n')).then(|| (lines.0, t.start_comment.0 - txt[..t.start_comment.0].rfind('\n').map_or(0, |p| p + 1)));
+            if own_line_tag.is_some_and(|(l, _)| fd.is_some_and(|fd| fd.groups.iter().any(|g| g.removed.len() == 1 && g.added.len() == 1 && g.added[0].0 == l))) {
+                probe.class("edit:start-tag-comment-line-only");
+            }
+            let e = expectation(fd, lines, t.same_comment, own_line_tag);
             let l = find_listed(&listing, &w.paths[i], t);
             let observed = l.map(|l| l.modified);
             let bad = match e {
@@ -609,8 +621,8 @@ fn repair(c: &DriftCase, w: &World, probe: &Probe) -> Verdict {
 }
 
 pub fn file_strategy() -> BoxedStrategy<DFile> {
-    let r = (prop_oneof![3 => Just(None), 2 => (0u8..4).prop_map(Some), 1 => Just(Some(255u8))], prop_oneof![5 => 0u8..6, 1 => Just(255u8)]).prop_map(|(file, name)| Ref { file, name });
-    let open = (proptest::option::weighted(0.8, 0u8..6), prop_oneof![2 => Just(vec![]), 2 => proptest::collection::vec(r, 1..4)], any::<u8>(), proptest::bool::weighted(0.15), prop_oneof![3 => Just(0u8), 1 => 0u8..5], proptest::bool::weighted(0.12), prop_oneof![4 => Just(0u8), 1 => 1u8..4])
+    let r = (prop_oneof![3 => Just(None), 2 => (0u8..4).prop_map(Some), 1 => Just(Some(255u8))], prop_oneof![5 => 0u8..7, 1 => Just(255u8)]).prop_map(|(file, name)| Ref { file, name });
+    let open = (proptest::option::weighted(0.8, 0u8..7), prop_oneof![2 => Just(vec![]), 2 => proptest::collection::vec(r, 1..4)], any::<u8>(), proptest::bool::weighted(0.15), prop_oneof![3 => Just(0u8), 1 => 0u8..5], proptest::bool::weighted(0.12), prop_oneof![4 => Just(0u8), 1 => 1u8..4])
         .prop_map(|(name, affects, form, multiline, indent, tag_lines, severity)| Item::Open { name, affects, form, multiline, indent, tag_lines, severity });
     let close = (any::<u8>(), prop_oneof![3 => Just(0u8), 1 => 0u8..5]).prop_map(|(form, indent)| Item::Close { form, indent });
     let item = prop_oneof![2 => open, 2 => close, 5 => any::<u16>().prop_map(Item::Code)];
@@ -632,7 +644,7 @@ pub fn small_scope_cases() -> Vec<DriftCase> {
     let py = SUFFIXES.iter().position(|(s, _)| *s == "py").unwrap();
     let items = vec![
         Item::Code(0),
-        Item::Open { name: Some(0), affects: vec![Ref { file: None, name: 1 }], form: 0, multiline: false, indent: 0, tag_lines: false, severity: 0 },
+        Item::Open { name: Some(6), affects: vec![Ref { file: None, name: 1 }], form: 0, multiline: false, indent: 0, tag_lines: false, severity: 0 },
         Item::Code(0),
         Item::Open { name: Some(1), affects: vec![], form: 0, multiline: false, indent: 0, tag_lines: false, severity: 0 },
         Item::Code(0),
@@ -673,7 +685,7 @@ pub fn small_scope_cases() -> Vec<DriftCase> {
 }
 
 pub fn run(run: &mut Run) {
-    run.rule = "enumerated small scope: every edit script of <= 2 single-line operations at every position of a fixed nine-line Python file with nested, linked blocks under -U0 and -U3 (1 624 cases). random: 1..4 files of random suffixes (root or sub-directories, one with a space, two whose names sort differently by bytes and by path components: `f0/` next to `f0.<ext>`, `src-gen/` next to `src/`), each a balanced list of own-line tag comments (any comment form of the language, 15% multi-line comments, 12% start tags spread over several lines, indentation), blocks named from a pool of 6 (duplicates, unnamed, one name holding a colon) with affects lists of 1..3 references (same file, other file, missing file, missing name, cycles), 20% of them with severity warning / Info (reported, not failing) or the unknown value `warn` (harmless while every link of the block is satisfied, a hard error once it has a stale one) and code lines; an edit script of 0..8 operations on new-side lines (add k lines, delete k lines at a gap, replace a line incl. tag lines; every third replacement differs in trailing blanks only) from which the old state is derived; file fates modified / renamed / new / untouched / an extra deleted file; in 25% further entries in the same diff (a binary file, an added empty file, a changed file of unknown suffix holding unbalanced tags, a file emptied, a mode-only change, a symbolic link replaced by a regular file); hostile removed lines (`-- x`, `--- a/f`, `@@ -1 +1 @@`, …) in 10%; missing trailing newline in 15% (new state) / 25% (old state); CRLF files in 10%; real git in a generated mode (-U0..10, unstaged/--cached/HEAD/commit-to-commit, 4 diff algorithms, -M). Oracle part 1: flag per block from an independent reader of git's diff (must / must-not / unspecified zones), part 2: affects diagnostics = reference model over the listed flags, exit status; part 3: after touching every linked block the run passes. Non-trivial = a file with >= 2 hunks, a must-modified block with affects and a must-not block.".into();
+    run.rule = "enumerated small scope: every edit script of <= 2 single-line operations at every position of a fixed nine-line Python file with nested, linked blocks under -U0 and -U3 (1 624 cases). random: 1..4 files of random suffixes (root or sub-directories, one with a space, two whose names sort differently by bytes and by path components: `f0/` next to `f0.<ext>`, `src-gen/` next to `src/`), each a balanced list of own-line tag comments (any comment form of the language, 15% multi-line comments, 12% start tags spread over several lines, indentation), blocks named from a pool of 7 (duplicates, unnamed, one name holding a colon, one holding two-byte characters) with affects lists of 1..3 references (same file, other file, missing file, missing name, cycles), 20% of them with severity warning / Info (reported, not failing) or the unknown value `warn` (harmless while every link of the block is satisfied, a hard error once it has a stale one) and code lines; an edit script of 0..8 operations on new-side lines (add k lines, delete k lines at a gap, replace a line incl. tag lines; every third replacement differs in trailing blanks only) from which the old state is derived; file fates modified / renamed / new / untouched / an extra deleted file; in 25% further entries in the same diff (a binary file, an added empty file, a changed file of unknown suffix holding unbalanced tags, a file emptied, a mode-only change, a symbolic link replaced by a regular file); hostile removed lines (`-- x`, `--- a/f`, `@@ -1 +1 @@`, …) in 10%; missing trailing newline in 15% (new state) / 25% (old state); CRLF files in 10%; real git in a generated mode (-U0..10, unstaged/--cached/HEAD/commit-to-commit, 4 diff algorithms, -M). Oracle part 1: flag per block from an independent reader of git's diff (must / must-not / unspecified zones), part 2: affects diagnostics = reference model over the listed flags, exit status; part 3: after touching every linked block the run passes. Non-trivial = a file with >= 2 hunks, a must-modified block with affects and a must-not block.".into();
     run.assumptions = vec![
         "file names avoid characters git C-quotes".into(),
         "mixed -/+ groups count through their added lines only (removed lines of a mixed group are not asserted: see K2 in DESIGN.md)".into(),
